@@ -243,6 +243,21 @@ SameTaxaWhenShared(doc, fmt) ==
     \A r1, r2 \in AllRoutes :
        LET a == ReadInto(<<>>, doc, fmt, r1)  b == ReadInto(a.ns, doc, fmt, r2) IN a.at = b.at
 
+\* several <otus> blocks mapped to one namespace (lists = their label lists): every block is looked up in
+\* the namespace as it stands when the block is read, so labels shared between blocks denote one taxon
+RECURSIVE ReadBlocksInto(_, _, _, _)
+ReadBlocksInto(ns, lists, k, reuse) ==
+    IF k > Len(lists) THEN [ns |-> ns, at |-> <<>>]
+    ELSE LET ns2 == IF reuse THEN RequireAll(ns, lists[k]) ELSE ns \o lists[k]
+             here == [j \in 1..Len(lists[k]) |-> IF reuse THEN Lookup(ns2, lists[k][j]) ELSE Len(ns) + j]
+             rest == ReadBlocksInto(ns2, lists, k + 1, reuse)
+         IN [ns |-> rest.ns, at |-> <<here>> \o rest.at]
+SameTaxaWhenSharedBlocks(lists) ==
+    \A r1, r2 \in AllRoutes :
+       LET a == ReadBlocksInto(<<>>, lists, 1, ReusesTaxa("nexml", r1))
+           b == ReadBlocksInto(a.ns, lists, 1, ReusesTaxa("nexml", r2))
+       IN a.at = b.at
+
 \* ------------------------------------------------------------------ matrices, source dispatch
 MatricesAgree(doc) ==
     LET M == CharsBlocks(doc)  typeOf(b) == b.type IN
